@@ -420,11 +420,19 @@ impl Shape {
                     1,
                     None,
                 ));
+                // a `&mut` argument handed on in a recursive call is reborrowed, not moved: it is used again afterwards
+                let reuse = if self.variant == Variant::Refs && k >= 2 { Some(format!("a{}", k - 1)) } else { None };
                 if self.ret {
                     l.push("if v0 == 0 {".into());
                     l.push("    h".into());
                     l.push(format!("}} else if {cond} {{"));
-                    l.push(format!("    h.wrapping_add({ca}.wrapping_mul(31))"));
+                    if let Some(m) = &reuse {
+                        l.push(format!("    let r = {ca};"));
+                        l.push(format!("    {m}.push(r % 10);"));
+                        l.push("    h.wrapping_add(r.wrapping_mul(31))".into());
+                    } else {
+                        l.push(format!("    h.wrapping_add({ca}.wrapping_mul(31))"));
+                    }
                     l.push("} else {".into());
                     l.push(format!("    h ^ {cb}.wrapping_mul(17)"));
                     l.push("}".into());
@@ -432,8 +440,14 @@ impl Shape {
                     l.push("if v0 == 0 {".into());
                     l.push(format!("}} else if {cond} {{"));
                     l.push(format!("    {ca};"));
+                    if let Some(m) = &reuse {
+                        l.push(format!("    {m}.push(3);"));
+                    }
                     l.push("} else {".into());
                     l.push(format!("    {cb};"));
+                    if let Some(m) = &reuse {
+                        l.push(format!("    let _len_after = {m}.len();"));
+                    }
                     l.push("}".into());
                 }
             }
